@@ -145,7 +145,7 @@ theorem consumeQName_slice {src : Str} {s s' : Lex.Stream} {p l : StrSpan} (hw :
         · simp at h
         · simp only [Option.some.injEq, Prod.mk.injEq] at h
           obtain ⟨rfl, rfl, _⟩ := h
-          exact ⟨emptySpan_sliceOf src, hw.sliceBack _, .inl rfl⟩
+          exact ⟨emptySpan_sliceOf src, hw.sliceBack _, .inl ⟨rfl, rfl⟩⟩
     | some i =>
       dsimp only at h
       split at h
